@@ -119,7 +119,8 @@ def rule_census(prog, fixture=False):
     if not fixture:
         for f, fsuffix, k, reason in ALLOWED_SITES:
             if (f, k) not in seen:
-                raise AnalysisBroken("confirmed write site %s (%s) no longer found: re-confirm the table" % (f, k))
+                # fewer write sites cannot break the property; but the table is then out of date
+                r.undecided.append("confirmed write site %s (%s) no longer found: re-confirm the table" % (f, k))
     return r
 
 
@@ -644,6 +645,83 @@ def rule_directory_separator(prog, fixture=False):
     return r
 
 
+# ---------------------------------------------------------------- R-C12-5
+BOUNDED_FILLS = {"snprintf": 0, "vsnprintf": 0, "strncpy": 0, "strncat": 0, "memcpy": 0, "sprintf": 0, "strcpy": 0,
+                 "strcat": 0, "strlcpy": 0, "strlcat": 0}
+
+
+def _buffers_behind(prog, fn, e, depth=0, seen=None):
+    """(function, char-array declaration id, name) triples for fixed-size char buffers from which the string
+    value of e is made (through constructors, +, locals, c_str()/data() and helper functions' returns)."""
+    seen = seen if seen is not None else set()
+    e = strip_all(e)
+    if e is None or depth > 6 or (fn.uid, id(e)) in seen:
+        return []
+    seen.add((fn.uid, id(e)))
+    k = e.get("k")
+    out = []
+    if k == "DeclRefExpr" and e.get("dk") in ("Var", "ParmVar"):
+        t = e.get("ct") or e.get("t") or ""
+        if "[" in t and "char" in t:
+            return [(fn, e["d"], e.get("n"))]
+        for n in fn.walk():
+            if n.get("k") == "VarDecl" and n.get("d") == e.get("d") and n.get("c"):
+                out += _buffers_behind(prog, fn, n["c"][0], depth + 1, seen)
+            if n.get("k") in ("BinaryOperator", "CXXOperatorCallExpr") and n.get("op") in ("=", "+=") and n.get("c"):
+                ops = n["c"][-2:]
+                if (strip_all(ops[0]) or {}).get("d") == e.get("d"):
+                    out += _buffers_behind(prog, fn, ops[1], depth + 1, seen)
+        return out
+    if k in ("CallExpr", "CXXMemberCallExpr"):
+        callee = strip(e["c"][0]) if e.get("c") else None
+        if k == "CXXMemberCallExpr" and callee is not None and callee.get("n") in ("c_str", "data", "str", "substr") and callee.get("c"):
+            return _buffers_behind(prog, fn, callee["c"][0], depth + 1, seen)
+        for t in prog.call_targets(fn, e):
+            for r_ in t.walk():
+                if r_.get("k") == "ReturnStmt" and r_.get("c"):
+                    out += _buffers_behind(prog, t, r_["c"][0], depth + 1, seen)
+        return out
+    if k in ("CXXConstructExpr", "CXXTemporaryObjectExpr", "CXXFunctionalCastExpr", "CXXBindTemporaryExpr",
+             "CXXOperatorCallExpr", "ConditionalOperator", "BinaryOperator"):
+        for c in e.get("c", []):
+            out += _buffers_behind(prog, fn, c, depth + 1, seen)
+    return out
+
+
+def rule_bounded_names(prog, fixture=False):
+    r = RuleResult("R-C12-5", "no output file name passes through a fixed-size character buffer that can cut it "
+                   "short: a truncated path names a different file (in an ancestor of the destination); a bounded "
+                   "fill is acceptable only where its result is compared with the buffer size", floor=0 if fixture else 3)
+    for fn, n, kind, path in creation_sites(prog):
+        if path is None or kind.startswith("fopen:r") or kind == "tmpfile":
+            continue
+        key = "%s::%s::%s(%s)" % (fn.relfile(), fn.qn, kind, show(path)[:50])
+        bufs = _buffers_behind(prog, fn, path)
+        probs = []
+        for bf, d, nm in bufs:
+            for c in bf.walk():
+                if c.get("k") != "CallExpr":
+                    continue
+                base = notpl(c.get("q") or "").split("::")[-1]
+                a = call_args(c)
+                if base not in BOUNDED_FILLS or not a or (strip_all(a[0]) or {}).get("d") != d:
+                    continue
+                p_ = bf.parent(c)
+                while p_ is not None and p_.get("k") in ("ImplicitCastExpr", "ParenExpr", "ExprWithCleanups"):
+                    p_ = bf.parent(p_)
+                used = p_ is not None and p_.get("k") in ("BinaryOperator", "VarDecl", "IfStmt", "ConditionalOperator", "ReturnStmt") \
+                    and not (p_.get("k") == "BinaryOperator" and p_.get("op") == ",")
+                if base in ("snprintf", "vsnprintf", "strlcpy", "strlcat") and used:
+                    continue
+                probs.append("%s: %s() fills the %s `%s` and its result is not examined" % (bf.loc(c), base,
+                             (bf.node_by_decl(d) or {}).get("t", "buffer") if hasattr(bf, "node_by_decl") else "buffer", nm))
+        r.add(key, fn.loc(n), not probs,
+              "no fixed-size buffer on the way" if not bufs else ("bounded fills are checked" if not probs else
+              "the name `%s` is assembled in a fixed-size buffer: %s - a destination path longer than the buffer is "
+              "silently cut and the file is created somewhere else" % (show(path)[:40], "; ".join(probs[:2]))))
+    return r
+
+
 def rule_ir_census(ctx):
     """Thorough tier: file-modifying entry points among the linked program's
     undefined external symbols must be explainable by the confirmed table."""
@@ -668,7 +746,8 @@ def rule_ir_census(ctx):
 
 def run(ctx):
     prog = ctx.prog("dfs", "N")
-    res = [rule_census(prog), rule_path_confinement(prog), rule_not_an_input(prog), rule_directory_separator(prog)]
+    res = [rule_census(prog), rule_path_confinement(prog), rule_not_an_input(prog), rule_directory_separator(prog),
+           rule_bounded_names(prog)]
     if ctx.tier == "thorough":
         res.append(rule_ir_census(ctx))
     return res
@@ -679,4 +758,5 @@ SELFTESTS = [
     (rule_path_confinement, ["c12_bad.cc"], ["c12_good.cc"], "ofstream"),
     (rule_not_an_input, ["c12_in_bad.cc"], ["c12_in_good.cc"], "write_body"),
     (rule_directory_separator, ["c12_in_bad.cc"], ["c12_in_good.cc"], "dest_dir"),
+    (rule_bounded_names, ["c12_buf_bad.cc"], ["c12_buf_good.cc"], "write_span"),
 ]
